@@ -50,6 +50,93 @@ func pqStreamK1(rep *Report, m *model.Client, e *pqengine.Engine, what string) {
 	}
 }
 
+// K1: the model's reader state machine (rd_run: Next / partial Read / skip) and the real Reader get the same
+// random call sequence on the same page chain; every reported size and every returned byte string must agree
+func pqReaderK1(rep *Report, m *model.Client, e *pqengine.Engine, r *rand.Rand) {
+	if e.Queue == nil || e.File == nil {
+		return
+	}
+	e.Apply(pqengine.Op{Kind: "flush"})
+	e.Apply(pqengine.Op{Kind: "rdone"})
+	e.Apply(pqengine.Op{Kind: "reopen"}) // a fresh reader: it starts at the first un-ACKed event
+	if e.Queue == nil || e.R == nil {
+		return
+	}
+	stream, payload, pos, n, _, err := e.RawStream()
+	if err != nil || n == 0 || len(stream) > 60000 {
+		return
+	}
+	ps := int(e.Cfg.PageSize)
+	cnt := 2*n + 4
+	if cnt > 80 {
+		cnt = 80
+	}
+	var ops, outs []string
+	if err := e.R.Begin(); err != nil {
+		return
+	}
+	defer e.R.Done()
+	for i := 0; i < cnt; i++ {
+		if r.Intn(3) == 0 {
+			ops = append(ops, "n")
+			sz, err := e.R.Next()
+			if err != nil {
+				e.Fail("reader K1: Next failed: %v", err)
+				return
+			}
+			outs = append(outs, fmt.Sprintf("s%d", sz))
+			continue
+		}
+		k := 1 + r.Intn(2*ps)
+		switch r.Intn(4) {
+		case 0:
+			k = 1 + r.Intn(8)
+		case 1:
+			// stop a few bytes before the end of the reader's page
+			_, _, _, off, _ := pq.VerifReaderState(e.R)
+			if g := ps - off - (1 + r.Intn(5)); g > 0 {
+				k = g
+			}
+		}
+		ops = append(ops, fmt.Sprintf("r%d", k))
+		buf := make([]byte, k)
+		got, err := e.R.Read(buf)
+		if err != nil {
+			e.Fail("reader K1: Read failed: %v", err)
+			return
+		}
+		outs = append(outs, "b"+model.Hex(buf[:got]))
+	}
+	res := m.Ask(fmt.Sprintf("rdrun %d %d %d %s %s", payload, pos, n, model.Hex(stream), strings.Join(ops, " ")))
+	rep.count("k1:reader-state-machine-runs", 1)
+	rep.count("k1:reader-state-machine-calls", cnt)
+	if want := strings.Join(outs, " "); res != want {
+		// first difference
+		a, b := strings.Fields(res), outs
+		i := 0
+		for i < len(a) && i < len(b) && a[i] == b[i] {
+			i++
+		}
+		ma, mb := "(none)", "(none)"
+		if i < len(a) {
+			ma = trunc(a[i], 60)
+		}
+		if i < len(b) {
+			mb = trunc(b[i], 60)
+		}
+		rep.violate(Violation{Kind: "correspondence", Sig: "pq-reader/model-state-machine-vs-reader",
+			Detail: fmt.Sprintf("call #%d (%s) of %s: model reader says %s, the implementation %s (P=%d, start=%d, %d events)", i, ops[minInt(i, len(ops)-1)], trunc(strings.Join(ops, " "), 200), ma, mb, payload, pos, n),
+			Replay: pqReplay{Config: e.Cfg, Log: tailLog(e.Log, 400), Mode: "reader-k1"}})
+	}
+}
+
+func minInt(a, b int) int {
+	if a < b {
+		return a
+	}
+	return b
+}
+
 // ---------------------------------------------------------------------------------------------
 // C06: crash images of queue histories
 
